@@ -32,6 +32,9 @@ type c13Case struct {
 	RHdr    [][2]string `json:"resp_headers"`
 	RBody   int         `json:"resp_body"`
 	RFrame  string      `json:"resp_framing"` // cl | chunked | close
+	// Drop: the target closes the (reused) connection after reading this request, once; the proxy's
+	// transport may retry a replayable request on a new connection
+	Drop bool `json:"drop_reused_connection,omitempty"`
 }
 
 type c13Scenario struct {
@@ -114,7 +117,7 @@ func c13HeaderValue(rng *rand.Rand) string {
 func c13Gen(rng *rand.Rand, idx, ncases int) c13Scenario {
 	sc := c13Scenario{Idx: idx}
 	for i := 0; i < ncases; i++ {
-		c := c13Case{ID: i, Svc: pick(rng, []string{"root", "app", "app", "raw", "fwd", "fwdapp", "tls"})}
+		c := c13Case{ID: i, Svc: pick(rng, []string{"root", "app", "app", "raw", "fwd", "fwdapp", "tls", "buf", "buf"})}
 		c.Method = pick(rng, []string{"GET", "GET", "POST", "PUT", "DELETE", "PATCH", "OPTIONS", "HEAD", "PURGE", "M-SEARCH"})
 		rest := c13Path(rng)
 		switch c.Svc {
@@ -182,6 +185,18 @@ func c13Gen(rng *rand.Rand, idx, ncases int) c13Scenario {
 				c.RHdr = append(c.RHdr, [2]string{"Content-Type", pick(rng, []string{"text/plain", "application/octet-stream", "application/json; charset=utf-8"})})
 			}
 		}
+		if c.Svc == "buf" {
+			c.Path = "/x" + rest
+			c.TLS = false
+			if rng.IntN(2) == 0 && c.Method != "HEAD" {
+				c.Drop = true
+				c.Hdr = append(c.Hdr, [2]string{"Idempotency-Key", fmt.Sprintf("k-%d-%d", idx, i)})
+				if c.Body == 0 {
+					c.Body = pick(rng, []int{17, 1000, 70000})
+				}
+				c.Chunks = rng.IntN(3)
+			}
+		}
 		sc.Cases = append(sc.Cases, c)
 	}
 	return sc
@@ -214,14 +229,17 @@ func TestC13(t *testing.T) {
 }
 
 type c13Echo struct {
-	mu    sync.Mutex
-	got   map[int]*RawMsg
-	sent  map[int]*RawMsg // what the target put on the wire
-	cases map[int]c13Case
+	mu       sync.Mutex
+	dropped  map[int]bool
+	attempts map[int][]*RawMsg // every delivery of the case's request the target saw
+	got      map[int]*RawMsg
+	sent     map[int]*RawMsg // what the target put on the wire
+	cases    map[int]c13Case
 }
 
 func (e *c13Echo) serve(ft *FakeTarget, c net.Conn) {
 	br := bufio.NewReader(c)
+	served := 0
 	for {
 		m, err := readRawRequest(br)
 		if err != nil {
@@ -230,9 +248,19 @@ func (e *c13Echo) serve(ft *FakeTarget, c net.Conn) {
 		var id int
 		fmt.Sscanf(m.First("X-Case"), "%d", &id)
 		e.mu.Lock()
-		e.got[id] = m
 		cs := e.cases[id]
+		if cs.Drop && served > 0 && !e.dropped[id] {
+			// first delivery on a kept-alive connection: read it, then die without answering
+			e.dropped[id] = true
+			e.attempts[id] = append(e.attempts[id], m)
+			e.mu.Unlock()
+			ft.w.sleep(OffTarget)
+			return
+		}
+		e.got[id] = m
+		e.attempts[id] = append(e.attempts[id], m)
 		e.mu.Unlock()
+		served++
 		method := strings.Fields(m.Line)[0]
 		if !ft.w.sleep(OffTarget) { // a real target does not answer in zero time (DESIGN.md section 11)
 			return
@@ -285,7 +313,7 @@ func c13Run(t *testing.T, run *Run, sc c13Scenario) {
 	w := NewWorld(t, WorldOpt{TLSListener: true})
 	defer w.Close()
 	run.Eval()
-	echo := &c13Echo{got: map[int]*RawMsg{}, sent: map[int]*RawMsg{}, cases: map[int]c13Case{}}
+	echo := &c13Echo{got: map[int]*RawMsg{}, sent: map[int]*RawMsg{}, cases: map[int]c13Case{}, dropped: map[int]bool{}, attempts: map[int][]*RawMsg{}}
 	for _, c := range sc.Cases {
 		echo.cases[c.ID] = c
 	}
@@ -307,10 +335,11 @@ func c13Run(t *testing.T, run *Run, sc c13Scenario) {
 		!dep("raw", server.ServiceOptions{PathPrefixes: []string{"/raw"}, StripPrefix: false}, false) ||
 		!dep("fwd", server.ServiceOptions{Hosts: []string{"fwd.example"}}, true) ||
 		!dep("fwdapp", server.ServiceOptions{Hosts: []string{"fwd.example"}, PathPrefixes: []string{"/app"}, StripPrefix: true}, true) ||
+		!depBuf(w, run) ||
 		!dep("tls", server.ServiceOptions{Hosts: []string{"tls.example"}, TLSEnabled: true, TLSCertificatePath: fix + "/cert.pem", TLSPrivateKeyPath: fix + "/key.pem"}, false) {
 		return
 	}
-	hostOf := map[string]string{"root": "plain.example", "app": "plain.example:8080", "raw": "plain.example", "fwd": "fwd.example", "fwdapp": "fwd.example", "tls": "tls.example"}
+	hostOf := map[string]string{"buf": "buf.example", "root": "plain.example", "app": "plain.example:8080", "raw": "plain.example", "fwd": "fwd.example", "fwdapp": "fwd.example", "tls": "tls.example"}
 	seenIDs := map[string]int{}
 	for _, cs := range sc.Cases {
 		host := hostOf[cs.Svc]
@@ -358,7 +387,28 @@ func c13Run(t *testing.T, run *Run, sc c13Scenario) {
 		}
 		echo.mu.Lock()
 		got, sent := echo.got[cs.ID], echo.sent[cs.ID]
+		attempts := echo.attempts[cs.ID]
+		dropped := echo.dropped[cs.ID]
 		echo.mu.Unlock()
+		if dropped {
+			// the connection died under this request: either the client is told (502) or the proxy
+			// delivered the request again - then every delivery must carry the client's exact body
+			for k, a := range attempts {
+				if !bytes.Equal(a.Body, body) {
+					fail("body-changed:redelivery", "case %d: delivery %d of the request (target connection dropped after the first) carried %d body bytes, the client sent %d", cs.ID, k+1, len(a.Body), len(body))
+					return
+				}
+			}
+			if got == nil {
+				if resp.Status() != 502 {
+					fail("dropped-connection-status", "case %d: target dropped the connection without answering; client got %s", cs.ID, resp.Line)
+					return
+				}
+				run.Count("dropped_connection_502", 1)
+				continue
+			}
+			run.Count("dropped_connection_redelivered", 1)
+		}
 		if got == nil {
 			fail("not-forwarded", "case %d (%s %s): the target never saw the request; client got %s", cs.ID, cs.Method, cs.Path, resp.Line)
 			return
@@ -519,4 +569,14 @@ func c13Run(t *testing.T, run *Run, sc c13Scenario) {
 		}
 		run.Sample(c)
 	}
+}
+
+func depBuf(w *World, run *Run) bool {
+	to := DefTO
+	to.BufferRequests, to.BufferResponses, to.MaxMemoryBufferSize = true, true, 4096
+	if c := w.Deploy("buf", []string{"echo:80"}, server.ServiceOptions{Hosts: []string{"buf.example"}}, to, 5*time.Second, time.Second); c.Err != "" {
+		run.Inconclusive("setup deploy buf: %s", c.Err)
+		return false
+	}
+	return true
 }
